@@ -66,7 +66,6 @@ pub struct Checkpoint {
     /// (lane name, snapshot) for each registered lane reporter.
     pub lanes: Vec<(String, Option<UplinkSnapshot>)>,
     pub aggregate: Option<UplinkSnapshot>,
-    pub is_final: bool,
 }
 
 pub struct Obs {
@@ -90,7 +89,7 @@ pub struct Obs {
     /// (ticket, lane, control) for every control message the script sent to a lane.
     pub lane_ctl: Vec<(u64, usize, LaneCtl)>,
     pub init_error: Option<String>,
-    /// Every reader was stalled-free between these two tickets (stop requested .. agent finished)?
+    /// Names of the lanes the runtime registered a reporter for.
     pub registered_reporters: Vec<String>,
 }
 
@@ -103,7 +102,7 @@ const STEP_TIMEOUT: Duration = Duration::from_secs(20);
 
 pub fn runtime_config(cfg: &Config) -> AgentRuntimeConfig {
     AgentRuntimeConfig {
-        inactive_timeout: NEVER,
+        inactive_timeout: cfg.inactive_ms.map(Duration::from_millis).unwrap_or(NEVER),
         prune_remote_delay: cfg.prune_ms.map(Duration::from_millis).unwrap_or(NEVER),
         shutdown_timeout: Duration::from_secs(30),
         item_init_timeout: Duration::from_secs(5),
@@ -234,13 +233,13 @@ impl Runner {
         }
     }
 
-    fn snapshot(&mut self, is_final: bool) {
+    fn snapshot(&mut self) {
         let lanes = self.reporters.lock().iter().map(|(n, r)| (n.clone(), r.snapshot())).collect();
         let aggregate = self.aggregate.as_ref().and_then(|r| r.snapshot());
-        self.checkpoints.push(Checkpoint { ticket: ticket(), lanes, aggregate, is_final });
+        self.checkpoints.push(Checkpoint { ticket: ticket(), lanes, aggregate });
     }
 
-    fn unstall_everything(&mut self, keep_fast: bool) {
+    fn unstall_everything(&mut self) {
         for r in 0..self.live.len() {
             self.stall(r, false);
             if let Some(live) = self.live[r].as_ref() {
@@ -250,7 +249,6 @@ impl Runner {
         for l in 0..self.lane_tx.len() {
             self.lane(l, LaneCtl::Stall(false));
         }
-        let _ = keep_fast;
     }
 
     fn restore_pace(&mut self) {
@@ -269,11 +267,11 @@ impl Runner {
     }
 
     async fn checkpoint(&mut self) {
-        self.unstall_everything(false);
+        self.unstall_everything();
         settle().await;
         settle().await;
         self.check_stuck("checkpoint");
-        self.snapshot(false);
+        self.snapshot();
         self.restore_pace();
     }
 
@@ -373,7 +371,19 @@ pub fn run_case(cfg: &Config, script: &[Step], rng: &mut Rng) -> Obs {
         let link_handle = tokio::spawn(async move { while link_rx.recv().await.is_some() {} });
         let descriptor = AgentRouteDescriptor { identity, route: NODE.parse().expect("route uri"), route_params: HashMap::new() };
         let task = AgentRouteTask::new(&agent, descriptor, AgentRouteChannels::new(att_rx, http_rx, link_tx), stop_rx, config, reporting);
-        let agent_handle: JoinHandle<Result<(), AgentExecError>> = tokio::spawn(Jitter::new(task.run_agent(), rng2.fork(), cfg2.jitter_per_mille));
+        // Ticket at which run_agent returned (by itself or after a stop).
+        let done_at: Arc<Mutex<Option<u64>>> = Arc::new(Mutex::new(None));
+        let done2 = done_at.clone();
+        let run = task.run_agent();
+        let agent_handle: JoinHandle<Result<(), AgentExecError>> = tokio::spawn(Jitter::new(
+            async move {
+                let r = run.await;
+                *done2.lock() = Some(ticket());
+                r
+            },
+            rng2.fork(),
+            cfg2.jitter_per_mille,
+        ));
 
         let n = cfg2.remotes;
         let mut runner = Runner {
@@ -422,7 +432,7 @@ pub fn run_case(cfg: &Config, script: &[Step], rng: &mut Rng) -> Obs {
         let agent_alive = agent_handle.as_ref().map_or(false, |h| !h.is_finished());
         if !abrupt && agent_alive {
             // Epilogue 1: every reader drains, every pending sync is released, quiescence.
-            runner.unstall_everything(true);
+            runner.unstall_everything();
             for l in 0..n_lanes {
                 runner.lane(l, LaneCtl::SyncMode(SyncMode::Atomic));
                 runner.lane(l, LaneCtl::FlushSyncs);
@@ -431,7 +441,7 @@ pub fn run_case(cfg: &Config, script: &[Step], rng: &mut Rng) -> Obs {
             settle().await;
             settle().await;
             runner.check_stuck("final quiescence");
-            runner.snapshot(true);
+            runner.snapshot();
             quiescent = Some(ticket());
             // Epilogue 2: a fresh probe remote syncs every lane (large buffers, fast reader).
             runner.attach(n, 4096, 1 << 16, FAST, true).await;
@@ -467,7 +477,7 @@ pub fn run_case(cfg: &Config, script: &[Step], rng: &mut Rng) -> Obs {
             };
             match res {
                 Ok(Ok(r)) => {
-                    agent_finished = Some(ticket());
+                    agent_finished = Some(done_at.lock().unwrap_or_else(ticket));
                     agent_result = Some(r.map_err(|e| format!("{e}")));
                 }
                 Ok(Err(join_err)) => {
